@@ -124,6 +124,10 @@ func (C16) Run(s any, c *core.Ctx) core.Outcome {
 		}
 	}
 	fileBytes := res.Sink.Bytes()
+	if v := c16KeptRows(c, sh, pristine); v != nil {
+		out.Violation = v
+		return out
+	}
 
 	churn := func() *core.Violation {
 		// an unrelated writer and reader run to completion
@@ -364,4 +368,59 @@ func (C16) Run(s any, c *core.Ctx) core.Outcome {
 	out.Sig = fmt.Sprintf("%s|%s|%s|%s", sc.Plan.Shape, sc.Plan.W.Sig(), sc.Subject, opsig)
 	out.Sample = map[string]any{"subject": sc.Subject, "shape": sc.Plan.Shape, "rows": len(model), "ops": sc.Ops, "typed_held": len(typed), "clones_held": len(clones)}
 	return out
+}
+
+// c16KeptRows hands rows to the buffering writers (SortingWriter, RowBuffer),
+// keeps them, lets the writer go through several buffer generations, and
+// checks the caller's rows are still what was passed.
+func c16KeptRows(c *core.Ctx, sh gen.Shape, pristine gen.Data) *core.Violation {
+	model := pristine.Rows()
+	if len(model) == 0 || sh.HasMap() {
+		return nil
+	}
+	n := min(len(model), 64)
+	for _, subject := range []string{"sorting-writer", "row-buffer"} {
+		kept := gen.CloneRows(model[:n])
+		check := func(when string) *core.Violation {
+			for i := range kept {
+				if d := gen.RowDiff(model[i], kept[i]); d != "" {
+					return core.Violate("C16/writer-modified-input/"+subject, "row %d passed to WriteRows differs %s: %s", i, when, d)
+				}
+			}
+			return nil
+		}
+		switch subject {
+		case "sorting-writer":
+			sink, face := env.NewSink(c, env.SinkFaces{}, nil)
+			w := sh.NewSortingWriter(face, 5, parquet.SortingWriterConfig(parquet.SortingColumns(parquet.Ascending("id"))))
+			for lo := 0; lo < n; lo += 3 {
+				if _, err := w.WriteRows(kept[lo:min(lo+3, n)]); err != nil {
+					return core.Violate("C16/write-error/sorting-writer", "%v", err)
+				}
+				if v := check("after a later WriteRows"); v != nil {
+					return v
+				}
+			}
+			if err := w.Close(); err != nil {
+				return core.Violate("C16/write-error/sorting-writer", "Close: %v", err)
+			}
+			_ = sink
+		case "row-buffer":
+			buf := sh.NewBuffer(gen.BRow)
+			for gen := 0; gen < 3; gen++ {
+				lo, hi := gen*n/3, (gen+1)*n/3
+				if _, err := buf.WriteRows(kept[lo:hi]); err != nil {
+					return core.Violate("C16/write-error/row-buffer", "%v", err)
+				}
+				if v := check("after WriteRows"); v != nil {
+					return v
+				}
+				buf.Reset()
+			}
+		}
+		if v := check("at the end"); v != nil {
+			return v
+		}
+	}
+	return nil
 }
